@@ -64,6 +64,8 @@ ASSUMPTIONS = [
     "evaluation mode, CPU, float64 (float32 for LinearBucketEncoder, whose greater_mask is hard-wired float32, "
     "and for a share of the other cases); footprints compared bit-exactly within one batch shape, cross-batch "
     "comparisons with tolerance 1e-9 (float64) / 2e-4 (float32) relative",
+    "the output shape [batch, columns, channels] is a theorem (Props/C12.v encoder_output_shape) and compared with "
+    "the implementation's on every case",
     "infinities are not modelled; non-mutation of the caller's tensors is observed by snapshots, not proved",
     "'any parameter initialisation' = any values of the learnable parameters with torch's padding rows "
     "(Embedding / EmbeddingBag padding_idx=0) zero, which is what construction and reset_parameters() guarantee: "
@@ -921,7 +923,7 @@ def coq_term(case, obs):
            f"{case['channels']}%nat {H.cna(case['na'])})")
     x = coq_input(case, case["feat"])
     if not obs.get("ok"):
-        return f"check_enc true {cfg} {x} true [] [] None"
+        return f"check_enc true {cfg} {x} true (0%nat, 0%nat, 0%nat) [] [] None"
     perts = []
     for (r, j, v), f in zip(case["perts"], obs["foot"]):
         if "exc" in f or f.get("pre") is None:
@@ -932,7 +934,8 @@ def coq_term(case, obs):
     imp = "None" if case["na"] is None else f"(Some {coq_input(case, impute(case, case['feat']))})"
     zeros = C.clist(obs["zeros"], lambda row: C.clist(row, C.cbool))
     strict = C.cbool(case.get("params", "noise") == "noise")
-    term = f"check_enc {strict} {cfg} {x} false {zeros} {C.clist(perts)} {imp}"
+    shp = "(" + ", ".join(f"{int(v)}%nat" for v in obs["pre_shape"]) + ")"
+    term = f"check_enc {strict} {cfg} {x} false {shp} {zeros} {C.clist(perts)} {imp}"
     rp = obs.get("real_params")
     if rp is not None:
         cfg2 = (f"(qconfig {coq_encoder_real(case, rp)} "
